@@ -8,6 +8,7 @@ import (
 	"strconv"
 	"strings"
 	"sync"
+	"sync/atomic"
 	"time"
 
 	"cloud.google.com/go/longrunning/autogen/longrunningpb"
@@ -69,6 +70,8 @@ type fakeClock struct {
 	held    map[uint64]int    // Synchronize goroutine -> number of holds begun before it started
 	names   map[uint64]string // Synchronize goroutine -> worker key
 	readAt  map[string]int64  // worker key -> clock value its suspended call had read
+	reads   atomic.Int64      // number of clock reads so far
+	selMark map[uint64]bool   // Execute goroutines whose size class selection takes until the hold ends
 	auth    map[uint64]bool   // WaitExecution goroutines whose authorization takes until the hold ends
 }
 
@@ -96,6 +99,28 @@ func (a gatedAuthorizer) Authorize(ctx context.Context, instanceNames []digest.I
 	return a.Authorizer.Authorize(ctx, instanceNames)
 }
 
+// markSel / selGate: a selector whose Select call takes until the hold ends.  The scheduler calls
+// Select with its lock held, so nothing else may touch the scheduler in the meantime.
+func (c *fakeClock) markSel() {
+	c.mu.Lock()
+	if c.selMark == nil {
+		c.selMark = map[uint64]bool{}
+	}
+	c.selMark[goid()] = true
+	c.mu.Unlock()
+}
+
+func (c *fakeClock) selGate() {
+	c.mu.Lock()
+	g := c.gate
+	mine := c.selMark[goid()]
+	delete(c.selMark, goid())
+	c.mu.Unlock()
+	if g != nil && mine {
+		<-g
+	}
+}
+
 func (c *fakeClock) markAuth() {
 	c.mu.Lock()
 	if c.auth == nil {
@@ -114,6 +139,7 @@ func goid() uint64 {
 }
 
 func (c *fakeClock) Now() time.Time {
+	c.reads.Add(1)
 	c.mu.Lock()
 	now := time.Unix(c.now, 0)
 	if g := c.gate; g != nil {
@@ -275,6 +301,7 @@ func (a *analyzerState) newLearner() *learner {
 }
 
 func (s *selector) Select(sizeClasses []uint32) (int, time.Duration, time.Duration, initialsizeclass.Learner) {
+	s.a.w.clk.selGate()
 	s.a.selCalls[s.id]++
 	idx := s.a.sel
 	if idx >= len(sizeClasses) {
@@ -366,21 +393,22 @@ type world struct {
 	evs   []evt
 	uuidN int
 
-	pqIDs     map[string]int // "prefix|platform string" -> id
-	pqNext    int
-	invKeys   map[int]invocation.Key
-	invRev    map[string]int
-	digests   map[string]int // hash -> index
-	clients   map[int]*call
-	syncs     map[string]*call // worker key -> active Synchronize
-	terms     map[int]*call
-	panicked  string
-	dkeys     map[string]int
-	pqSpec    map[int]string         // id -> "comps plat"
-	delayNext bool                   // the next Synchronize call is overtaken between its clock read and the scheduler lock (hold=2)
-	delayed   map[string]delayedSync // such calls that have not reached the scheduler yet
-	slowSends bool
-	sending   map[int]*sendGate
+	pqIDs          map[string]int // "prefix|platform string" -> id
+	pqNext         int
+	invKeys        map[int]invocation.Key
+	invRev         map[string]int
+	digests        map[string]int // hash -> index
+	clients        map[int]*call
+	syncs          map[string]*call // worker key -> active Synchronize
+	terms          map[int]*call
+	panicked       string
+	dkeys          map[string]int
+	pqSpec         map[int]string         // id -> "comps plat"
+	slowSelectNext bool                   // the next Execute's size class selection takes until the hold ends (hold=3)
+	delayNext      bool                   // the next Synchronize call is overtaken between its clock read and the scheduler lock (hold=2)
+	delayed        map[string]delayedSync // such calls that have not reached the scheduler yet
+	slowSends      bool
+	sending        map[int]*sendGate
 }
 
 type evt struct{ ent, text string }
@@ -623,8 +651,13 @@ func (w *world) startExecute(c, d int, dnc bool, comps []int, plat int, inv stri
 		metadata.Pairs("build.bazel.remote.execution.v2.requestmetadata-bin", string(rm))))
 	cl := &call{cancel: cancel}
 	w.clients[c] = cl
+	slowSelect := w.slowSelectNext
+	w.slowSelectNext = false
 	go func() {
 		defer w.guard("Execute")
+		if slowSelect {
+			w.clk.markSel()
+		}
 		err := w.bq.Execute(&remoteexecution.ExecuteRequest{
 			InstanceName:    compsToInstance(comps),
 			ActionDigest:    dp,
